@@ -6,7 +6,7 @@ _RAW = ["wlb", "mapop", "mapmsg", "lanereq-v", "lanereq-m", "laneresp-v", "laner
 PROP = {
     "generated": ["WireConsts"],
     "lean_modules": ["SwimVerif.Model.Frames", "SwimVerif.Model.FrameCodecs", "SwimVerif.Model.FramesMon",
-                     "SwimVerif.Proofs.Frames", "SwimVerif.Proofs.FrameCodecs", "SwimVerif.Generated.WireConsts"],
+                     "SwimVerif.Proofs.Frames", "SwimVerif.Proofs.FrameCodecs", "SwimVerif.Proofs.FrameSafety", "SwimVerif.Proofs.FrameCommand", "SwimVerif.Generated.WireConsts"],
     # `cases` = message sequences (1-6 messages); a `valid` sequence expands to EVERY single split point plus four
     # random multi-splits (1, <=3, <=9, <=40 bytes per read); a `mutate` sequence to ten mutated streams.
     "engines": [
@@ -30,17 +30,19 @@ PROP = {
                   "encoder - decodes a complete frame whatever follows and however much of it is already absorbed in "
                   "its state, and asks for more on every strict prefix without losing a byte - returns exactly the "
                   "encoded messages under EVERY chunking of the stream and is left holding exactly the trailing "
-                  "incomplete frame; lawfulness is proved for WithLengthBytesCodec, RawMapOperation, RawMapMessage "
-                  "(TAKE/DROP), the lane request/response decoders over value and map bodies, and the store "
-                  "init/initialized/response decoders, for all messages with sizes below 2^60; tag distinctness and "
-                  "the decoders' match arms are re-checked against the sources on every run. The byte-level models of "
-                  "16 raw codecs (incl. routed request/response, downlink operation, ad hoc command) are tied to the "
-                  "real Encoder/Decoder impls by differential execution (every single split, multi-splits down to one "
-                  "byte, mutations); the codecs with Recon bodies are checked implementation-against-original by the "
-                  "same monitor.",
+                  "incomplete frame; lawfulness is proved for all 16 modelled raw codecs: WithLengthBytesCodec, "
+                  "RawMapOperation, RawMapMessage (TAKE/DROP), lane request/response over value and map bodies, store "
+                  "init/initialized/response, DownlinkOperation, routed Request/Response messages and the ad hoc "
+                  "command decoder (six states). A second theorem shows that no byte stream, under any chunking, makes "
+                  "any of the 16 decoders panic or abort, and that unknown tags/kinds and stray lengths are errors. "
+                  "Tag distinctness and the decoders' match arms are re-checked against the sources on every run. The "
+                  "byte-level models are tied to the real Encoder/Decoder impls by differential execution (every "
+                  "single split, multi-splits down to one byte, mutations); the codecs with Recon bodies are checked "
+                  "implementation-against-original by the same monitor.",
     "level_note": "Proved for the byte-level models of the raw codecs; the typed (Recon body) decoders, bytes::BytesMut "
-                  "and the allocator are not modelled. The no-panic clause is false of the current code (F4, F104) and "
-                  "is stated with witnesses; F17, F101, F102, F103 are recorded split/strictness defects.",
+                  "and the allocator are not modelled. F4, F17, F101, F102, F104 were found by this check and are fixed "
+                  "in /repo (the check reports a VIOLATION when any of the fixes is reverted); F103 (bare Recon token "
+                  "split across reads, root cause in swimos_recon) is a recorded known finding of the typed decoders.",
     "trusted_base": COMMON_TRUST + [
         "modelled, not verified: bytes::BytesMut (a byte list), tokio_util::codec::FramedRead (append, then decode "
         "until Ok(None)), std::str::from_utf8 (re-implemented as utf8Valid), the allocator (a single allocation >= 293 000 000 bytes fails "
